@@ -179,6 +179,14 @@ func c01(args []string) int {
 		// restarts the WAL with a page the tail did not touch: the tail exists only in the database file
 		Layer{Name: "seeded/base/tail-hidden-by-restart-while-down", Cfg: cfgs["base"], Alphabet: strings.Fields("U W1 CK:PASSIVE START NEW"), Depth: d(3, 4),
 			Seeds: [][]string{strings.Fields("W3 SW CL U CK:PASSIVE"), strings.Fields("W3 SW KILL U CK:PASSIVE"), strings.Fields("W3 SW CL W1 CK:PASSIVE")}},
+		// an application commit landing in the middle of a sync (SCW: after the sync measured the WAL, before it
+		// finished), followed by checkpoints that truncate or restart the WAL behind that commit
+		Layer{Name: "seeded/base/commit-during-sync", Cfg: cfgs["base"], Alphabet: strings.Fields("SCW W1 U S LC:TRUNCATE LC:PASSIVE"), Depth: d(3, 4),
+			Seeds: [][]string{strings.Fields("W3 SW W1"), strings.Fields("W3 SW W3 S W1")}},
+		// the same commit landing inside litestream's own checkpoint, whose second file then cannot be staged (LCF):
+		// the WAL was truncated / restarted, the bookkeeping for it was not written
+		Layer{Name: "seeded/base/commit-during-failing-checkpoint", Cfg: cfgs["base"], Alphabet: strings.Fields("LCF:TRUNCATE LCF:RESTART LCF:PASSIVE W1 U S"), Depth: d(2, 3),
+			Seeds: [][]string{strings.Fields("W3 SW W3"), strings.Fields("W3 SW W1"), strings.Fields("W3 SW W3 S W1")}},
 		// the Store-level wrapper behind the `sync -wait` request (SD) against syncs that already copied the WAL locally
 		Layer{Name: "seeded/base/store-sync-wait", Cfg: cfgs["base"], Alphabet: strings.Fields("SD W1 S RS LC:PASSIVE"), Depth: d(2, 4),
 			Seeds: [][]string{strings.Fields("W1 S"), strings.Fields("W1 SD W1 S"), strings.Fields("W3 SW U S")}},
